@@ -116,8 +116,28 @@ func checkC12(c *Ctx, r *Report) {
 		for w := range writers {
 			id := fnID(w)
 			r.funcs[id] = true
+			isOption := false
+			if w.Parent() != nil && w.Signature.Recv() == nil && w.Signature.Params().Len() == 1 && w.Signature.Results().Len() == 0 {
+				if pt, ok := w.Signature.Params().At(0).Type().(*types.Pointer); ok && types.Identical(pt.Elem(), ci.tn) {
+					isOption = true // an option closure func(*T): it installs what its caller passed in
+					for _, st := range stores {
+						if st.fn != w {
+							continue
+						}
+						v := st.val
+						if u, ok := v.(*ssa.UnOp); ok {
+							v = u.X
+						}
+						if _, fromCaller := v.(*ssa.FreeVar); !fromCaller {
+							isOption = false // installs something of its own choosing: treated like any other writer
+						}
+					}
+				}
+			}
 			if isCtor[w] {
 				r.ok("R12.1", id, "writes the response-function fields as a constructor of "+spec.name, c.pos(w.Pos()), true)
+			} else if isOption {
+				r.info("R12.1", id, "an option function lets the caller install its own response function (user-supplied functions are outside the property)", c.pos(w.Pos()))
 			} else {
 				r.fail("R12.1", id, "a function that is not a constructor of "+spec.name+" stores to parseResponseFunc/asProtocolErrorFunc", c.pos(w.Pos()), "", "non-constructor-writer")
 			}
